@@ -28,7 +28,7 @@ func init() {
 			{ID: "C08.R4", Min: 8, Doc: "crash-point inventory: filesystem-mutating calls reachable from ioLoop, NewDiskQueue, Close, Delete compared with the reviewed list", Run: c08r4},
 			{ID: "C08.R5", Min: 2, Doc: "resume at persisted position: Seek(writePos/readPos, 0) follows the open of the segment under `pos > 0`", Run: c08r5},
 			{ID: "C08.R6", Min: 2, Doc: "handleReadError: nextReadFileNum is loaded from readFileNum after its increment; nextReadPos is 0 or loaded from readPos after it was set to 0", Run: c08r6},
-			{ID: "C08.R8", Min: 5, Doc: "what recovery reads back is what was written: reader and writer agree on the record format, the roll condition and the accepted record lengths, and re-opening the queue removes or renames no segment (rules C09.R5 and C09.R8 evaluated for this property as well)", Run: func(c *Check) { c09r5(c); c09r8(c) }},
+			{ID: "C08.R8", Min: 5, Doc: "what recovery reads back is what was written: reader and writer agree on the record format, the roll condition and the accepted record lengths, and re-opening the queue removes or renames no segment ; a segment is only removed after its last record was delivered, and it is the finished segment that is removed (rules C09.R5, C09.R8 and C09.R2 evaluated for this property as well)", Run: func(c *Check) { c09r5(c); c09r8(c); c09r2(c) }},
 			{ID: "C08.R7", Min: 3, Doc: "metadata content: persistMetaData writes, and retrieveMetaData reads back, depth, readFileNum, readPos, writeFileNum, writePos in this order with the same format string; the consumer cursor (not the read-ahead cursor nextRead*) is what is persisted, and the read-ahead cursor is re-derived from it on load", Run: c08r7},
 		},
 	})
